@@ -407,6 +407,32 @@ def all_(ctx, spec):
     os.remove(fn)
     if {int(u) for u in nodes} != set(A.bdd._succ) or refs:
         ctx.violation('dump-dot', 'roots-None-not-all-nodes', None)
+    # an empty collection of roots is not `None`: nothing is reachable, so
+    # nothing (at most the terminal) may be exported; today the call is
+    # refused with an exception, which exports nothing either
+    for empty in ([], set(), ()):
+        for via in ('bdd', 'autoref'):
+            try:
+                if via == 'bdd':
+                    A.bdd.dump(fn, empty if not isinstance(empty, tuple)
+                               else list(empty))
+                else:
+                    ab.dump(fn, list(empty))
+            except Exception:
+                ctx.counters['dump_of_no_roots_refused'] += 1
+                continue
+            finally:
+                text = open(fn).read() if os.path.exists(fn) else None
+                if os.path.exists(fn):
+                    os.remove(fn)
+            nodes, edges, refs, rows = read_dot(text)
+            if {int(u) for u in nodes} - {1} or refs:
+                ctx.violation('dump-dot', 'nodes-exported-for-no-roots',
+                              dict(via=via, nodes=sorted(nodes)[:8]))
+            ctx.counters['dump_of_no_roots_accepted'] += 1
+    if _b.to_nx(A.bdd, set()).number_of_nodes() or \
+            A.bdd.descendants([]) != set():
+        ctx.violation('to_nx', 'nodes-for-no-roots', None)
     ctx.counters['nx_nodes_with_duplicated_edges_observed'] += dup[0]
     ctx.sample(dict(kind='all', names=names, order=order,
                     functions=len(A.tables), root_sets=spec['sets']))
